@@ -758,52 +758,55 @@ def cmdSettle (d : Device) (o1 : Object) (c : Cmd) : Object × Except Refusal Un
     | _ => (o1, .error .opProblem)
   | _, _, _ => (o1, .error .opProblem)
 
-/-- `Commandable(...).WriteProperty`, written in the order of the Python:
-    the slot of the priority array is changed first, then presentValue is
-    written through the base class.  The first component of the result is the
-    object as mutated so far, whatever the outcome.
-    (with fixes/C17-slot-write-validate.patch: the value is validated before the
-    slot is touched) -/
+/-- the "writing to priorityArray, array index i" branch of
+    `Commandable(...).WriteProperty`, in the order of the Python: bounds, the
+    value check of fixes/C17-slot-write-validate.patch, then the slot is changed
+    (mutation 1) and presentValue follows through the base class (mutation 2).
+    The first component of the result is the object as mutated so far,
+    whatever the outcome. -/
+def cmdSlotWrite (d : Device) (o : Object) (c : Cmd) (v : WVal) (i : Int) :
+    Object × Except Refusal Unit :=
+  if i = 0 then (o, .error .writeAccessDenied)
+  else if i < 1 ∨ i > 16 then (o, .error .invalidArrayIndex)
+  else
+    match findSlot c.pa o.props, findSlot c.pv o.props with
+    | some pa, some pv =>
+      match pa.v with
+      | .arr slots =>
+        -- the new content of the slot
+        let newSlot : Except Refusal Item :=
+          match v with
+          | .null => .ok (.enc [nullTag])
+          | .one e' it =>
+            (match pv.d.dt with
+             | .scalar e => if elemValid e e' it then .ok it else .error invalidDatatype
+             | _ => .error invalidDatatype)
+          | .many .. => .error invalidDatatype
+        match newSlot with
+        | .error r => (o, .error r)
+        | .ok it =>
+          cmdSettle d { o with props := setSlot c.pa (.arr (slots.set (i.toNat - 1) it)) o.props } c
+      | _ => (o, .error .opProblem)
+    | _, _ => (o, .error .opProblem)
+
+/-- the "writing entire priorityArray" branch: passed along to the base class
+    first, then presentValue follows -/
+def cmdWholeWrite (d : Device) (o : Object) (c : Cmd) (v : WVal) : Object × Except Refusal Unit :=
+  match objWritePlain d o c.pa v none with
+  | (o1, .error r) => (o1, .error r)
+  | (o1, .ok ()) => cmdSettle d o1 c
+
+/-- `Commandable(...).WriteProperty`: presentValue (with a priority, default 16)
+    is translated into a priority-array element write (the request's array
+    index is overwritten by the priority); priorityArray is handled here;
+    everything else goes to the base class -/
 def objWriteCmd (d : Device) (o : Object) (c : Cmd) (pid : Nat) (v : WVal) (idx : Option Nat)
     (prio : Option Int) : Object × Except Refusal Unit :=
-  -- presentValue (with a priority) is translated into a priority-array write
-  let tr : Nat × Option Int :=
-    if pid = c.pv then (c.pa, some (match prio with | some p => p | none => 16))
-    else (pid, idx.map Int.ofNat)
-  if tr.1 = c.pa then
-    match tr.2 with
-    | none =>
-      -- "writing entire priorityArray": passed along to the base class first
-      match objWritePlain d o c.pa v none with
-      | (o1, .error r) => (o1, .error r)
-      | (o1, .ok ()) => cmdSettle d o1 c
-    | some i =>
-      if i = 0 then (o, .error .writeAccessDenied)
-      else if i < 1 ∨ i > 16 then (o, .error .invalidArrayIndex)
-      else
-        match findSlot c.pa o.props, findSlot c.pv o.props with
-        | some pa, some pv =>
-          match pa.v with
-          | .arr slots =>
-            -- the new content of the slot
-            let newSlot : Except Refusal Item :=
-              match v with
-              | .null => .ok (.enc [nullTag])
-              | .one e' it =>
-                (match pv.d.dt with
-                 | .scalar e => if elemValid e e' it then .ok it else .error invalidDatatype
-                 | _ => .error invalidDatatype)
-              | .many .. => .error invalidDatatype
-            match newSlot with
-            | .error r => (o, .error r)
-            | .ok it =>
-              -- mutation 1: the slot
-              let o1 : Object :=
-                { o with props := setSlot c.pa (.arr (slots.set (i.toNat - 1) it)) o.props }
-              -- mutation 2 (possibly): presentValue
-              cmdSettle d o1 c
-          | _ => (o, .error .opProblem)
-        | _, _ => (o, .error .opProblem)
+  if pid = c.pv then cmdSlotWrite d o c v (match prio with | some p => p | none => 16)
+  else if pid = c.pa then
+    match idx with
+    | none => cmdWholeWrite d o c v
+    | some i => cmdSlotWrite d o c v (Int.ofNat i)
   else objWritePlain d o pid v idx
 
 def objWrite (d : Device) (o : Object) (pid : Nat) (v : WVal) (idx : Option Nat) (prio : Option Int) :
